@@ -142,9 +142,10 @@ func (p *fmter) diffFile(ff []Fragment) {
 func tokenSource(tok Token) string {
 	switch tok.Type {
 	case STRING:
-		return fmt.Sprintf("%q", tok.Lit)
+		return quoteString(tok.Lit)
 	case REGEX:
-		return fmt.Sprintf("/%s/", tok.Lit)
+		// the lexer reads // inside a regex as a literal /
+		return fmt.Sprintf("/%s/", strings.ReplaceAll(tok.Lit, "/", "//"))
 	case DESCRIPTION:
 		return fmt.Sprintf("| %s", tok.Lit)
 	case COMMENT:
@@ -153,6 +154,23 @@ func tokenSource(tok Token) string {
 		return fmt.Sprintf("/*%s*/", tok.Lit)
 	}
 	return tok.Lit
+}
+
+// quoteString is the inverse of Lexer.lexString: the quote, the backslash and
+// the newline are the only escapes the lexer knows, every other character is
+// taken literally.
+func quoteString(s string) string {
+	sb := &strings.Builder{}
+	sb.WriteByte('"')
+	for _, r := range s {
+		switch r {
+		case '"', '\\', '\n':
+			sb.WriteByte('\\')
+		}
+		sb.WriteRune(r)
+	}
+	sb.WriteByte('"')
+	return sb.String()
 }
 
 func (p *fmter) singleLineTokens(src SourceNode, parts ...Token) {
